@@ -29,6 +29,30 @@ claimed = {
    text="Deductive proof of the control-flow part of the command-line contract on the real main and frontend.Exec: every process exit has code 0, 16, 17 or -1; fewer than two arguments exit 16; a source that cannot be stat'ed exits 17; an output file that cannot be opened exits 17 before anything is assembled; every failing exit prints a message; the destination is opened with O_CREATE|O_TRUNC; no exit path of Exec with a non-zero status has written the image, and the raw-binary path writes ctx.MachineCode exactly once. os.Exit, os.OpenFile, os.Stat, (*os.File).Write are modelled as ghost events (assumed library contracts).",
    note=TRUST + " NOT decided: the Shift_JIS/UTF-8 clause (x/text decoders and the PEG parser are outside every contract); the WCOFF branch's single write is inside CoffFormat.Write, which is abstracted here with an inferred frame; pass1.TraverseAST is used through a trusted frame contract.",
    design="DESIGN.md section 4, C19"),
+ "C06": dict(
+   text="Deductive proof with loop invariants against recursive spec functions: MultExp.Eval's result, when it reduces to a number, is the left-to-right fold of * / % (64-bit, division truncating toward zero, remainder with the dividend's sign, zero divisors not reduced) over the values its children evaluate to; AddExp.Eval folds all constant terms joined by + and - from left to right into one number; ImmExp.Eval gives decimal literals their value, `$` the location counter and an EQU name the evaluation of its stored body. The fold loops are proved for operand lists of any length.",
+   note=TRUST + " PARTIAL: that * / % bind tighter than + -, parentheses, literal syntax and spacing are decided by the PEG grammar (pigeon), outside every contract (A1). Evaluation of a child node is treated as a function of node and environment (interface contract on Exp.Eval, assumed for all implementations). Completeness direction (every all-constant tree does reduce) is not proved for MultExp.",
+   design="DESIGN.md section 4, C06"),
+ "C11": dict(
+   text="Deductive proof: an identifier that names an EQU evaluates to exactly what its stored body evaluates to (ImmExp.Eval macro clause), and the evaluation functions write nothing that existed before the call (frame obligations on MultExp/AddExp/ImmExp.Eval: stored macro bodies and the parse tree are never modified by using them), so a name and its parenthesised body are the same value to every consumer.",
+   note=TRUST + " PARTIAL: that an EQU statement emits nothing and stores Eval(body) is in TraverseAST, which is used through a trusted frame contract; the textual side (PEG) is assumed (A1).",
+   design="DESIGN.md section 4, C11"),
+ "C10": dict(
+   text="Frame obligations proved on the real code: the per-statement code generation (processOcode), the driver (GenerateX86) and pass 2 write nothing but freshly allocated memory, the code generation context's MachineCode/VS/BitMode and the ocode list (assigns clauses checked against every store, callees by contract or by inferred write sets); the expression evaluators write nothing pre-existing; a whole-program scan from frontend.Exec (through interfaces and function values) finds no store into any package-level variable; the destination is opened with O_CREATE|O_TRUNC; nothing is keyed on map iteration (no Range/Next instruction is accepted by the translator).",
+   note=TRUST + " TraverseAST's frame is a trusted contract; CoffFormat.Write is abstracted by an inferred write set; determinism of text/template, pigeon and colog is assumed.",
+   design="DESIGN.md section 4, C10"),
+ "C14": dict(
+   text="Frame obligations: what a statement's code generation may change is only fresh memory (plus the variant stack for L), so the bytes of one statement cannot influence another's except through the documented inputs (mode, symbol table, position); every ocode carries the mode it was written under (Emit) and GenerateX86 encodes it under that mode; pass 2 hands the symbol table itself to the template engine.",
+   note=TRUST + " The read side (a handler reads only its ocode, mode, symbols, position) is implied by the handlers' signatures plus the no-package-state scan of C10; handlers that go through the operand parser are abstracted with inferred write sets.",
+   design="DESIGN.md section 4, C14"),
+ "C13": dict(
+   text="For every function under contract, under its stated precondition, no run-time panic site (nil dereference, index/slice bounds, failed type assertion, integer division by zero, nil-map write, make with bad length, explicit panic) is reachable: one SMT obligation per site, generated automatically from the SSA. Known genuine panics (INT with a non-decimal or out-of-range operand, absurd RESB/ALIGNB sizes) are recorded findings.",
+   note=TRUST + " PARTIAL: covers the functions under contract only (listed in the evidence); arbitrary bytes through the pigeon parsers, stack depth and complexity are not decided. Panic sites inside callees that were abstracted (inferred frames) are not analysed.",
+   design="DESIGN.md section 4, C13"),
+ "C17": dict(
+   text="After the repair (fix commit): every ocode records the BITS mode in force when its statement was traversed (Emit stamps the client's current mode; SetBitMode updates it), GenerateX86 switches the context to the recorded mode before encoding each statement (call-site clause), and Exec initialises both copies of the mode to 16.",
+   note=TRUST + " That the [BITS n] case of TraverseAST calls SetBitMode with the directive's value is inside the trusted TraverseAST contract.",
+   design="DESIGN.md section 4, C17"),
  "C02": dict(
    text="Deductive proof, for all inputs, that the real calculateModRM (the only producer of mod/rm/SIB/displacement) emits bytes that an independent SDM decoder maps back to exactly the written base, index, scale and displacement at the address size implied by the registers, in both modes; obligations are generated from /repo's SSA on every run and discharged by z3/cvc5. Five recorded input regions where the current tree violates the clause are excluded as known findings and re-confirmed on every run.",
    note=TRUST + " Operand text -> MemoryInfo (PEG) is assumed (A2).",
